@@ -11,7 +11,8 @@ Import ListNotations.
    identifier for a triple), persistent identifiers are stable, pairwise distinct and map back exactly;
    issued identifiers have a value; transient identifiers are fresh; NewID / Terminate are local; the store
    is consistent after every step; what is issued is what the store holds; the reverse lookup answers the
-   current store.  No guard. *)
+   current store; find answers exactly the stored identifiers matching the whole filter; a lookup answers what
+   the store holds; NewID / Terminate take effect (twelve parts).  No guard. *)
 Theorem c18_ident : forall cfg is_user ops, ident_spec cfg is_user (mtrace cfg [] ops).
 Proof. exact ident_holds. Qed.
 Print Assumptions c18_ident.
@@ -59,13 +60,49 @@ Print Assumptions c18_findlocal_is_store.
 (* the two new parts are independent of the former seven (observed traces of a stale memo / stale reverse cache) *)
 Theorem c18_new_parts_independent :
   (wf ex_cfg ex_user ex_stale
-   /\ ident_spec_parts_b ex_cfg ex_user ex_stale = [true; true; true; true; true; true; true; false; true]
+   /\ ident_spec_parts_b ex_cfg ex_user ex_stale = [true; true; true; true; true; true; true; false; true; true; true; true]
    /\ ~ ident_spec ex_cfg ex_user ex_stale)
   /\ (wf ex_cfg ex_user ex_stale_rev
-      /\ ident_spec_parts_b ex_cfg ex_user ex_stale_rev = [true; true; true; true; true; true; true; true; false]
+      /\ ident_spec_parts_b ex_cfg ex_user ex_stale_rev = [true; true; true; true; true; true; true; true; false; true; true; true]
       /\ ~ ident_spec ex_cfg ex_user ex_stale_rev).
 Proof. exact new_parts_independent. Qed.
 Print Assumptions c18_new_parts_independent.
+
+(* (strengthening round 4) find_nameid answers exactly the identifiers stored for the user at that moment that match
+   EVERY field of the filter, in store order, each as the store holds it *)
+Theorem c18_find_is_filter : forall cfg is_user ops,
+  wf cfg is_user (mtrace cfg [] ops) -> all_events find_event (mtrace cfg [] ops).
+Proof. exact find_is_filter. Qed.
+Print Assumptions c18_find_is_filter.
+
+(* (strengthening round 4) match_local_id, when it answers, answers a persistent identifier the store holds for that
+   user (whole NameID) and for the requester / qualifier asked for *)
+Theorem c18_lookup_is_stored : forall cfg is_user ops,
+  wf cfg is_user (mtrace cfg [] ops) -> all_events lookup_event (mtrace cfg [] ops).
+Proof. exact lookup_is_stored. Qed.
+Print Assumptions c18_lookup_is_stored.
+
+(* (strengthening round 4) NewID / NewEncryptedID / Terminate presented with an identifier the store holds are answered
+   with that identifier carrying the SPProvidedID asked for, and afterwards it is the one stored under that value *)
+Theorem c18_manage_takes_effect : forall cfg is_user ops,
+  wf cfg is_user (mtrace cfg [] ops) -> all_events effect_event (mtrace cfg [] ops).
+Proof. exact manage_takes_effect. Qed.
+Print Assumptions c18_manage_takes_effect.
+
+(* the three parts of round 4 are independent of the former nine (observed traces of a filter loop in which the last
+   field decides / of a NameID object shared between lookups / of a handler refusing a NewID for a stored identifier) *)
+Theorem c18_round4_parts_independent :
+  (wf ex_cfg ex_user ex_lastfield
+   /\ ident_spec_parts_b ex_cfg ex_user ex_lastfield = [true; true; true; true; true; true; true; true; true; false; true; true]
+   /\ ~ ident_spec ex_cfg ex_user ex_lastfield)
+  /\ (wf ex_cfg ex_user ex_shared
+      /\ ident_spec_parts_b ex_cfg ex_user ex_shared = [true; true; true; true; true; true; true; true; true; true; false; true]
+      /\ ~ ident_spec ex_cfg ex_user ex_shared)
+  /\ (wf ex_cfg ex_user ex_refused
+      /\ ident_spec_parts_b ex_cfg ex_user ex_refused = [true; true; true; true; true; true; true; true; true; true; true; false]
+      /\ ~ ident_spec ex_cfg ex_user ex_refused).
+Proof. exact round4_parts_independent. Qed.
+Print Assumptions c18_round4_parts_independent.
 
 (* invariant of every reachable state: each stored identifier has its reverse entry and vice versa *)
 Theorem c18_reachable_inv : forall cfg is_user ops,
